@@ -90,6 +90,10 @@ def axiom_battery():
     for n, m in itertools.product((2, 3, 4, 6), (2, 3)):
         collect(lambda T: T.root(n, T.root(m, a)))
         collect(lambda T: T.root(n, sx.ipow(a, m)))
+    for e in (2 / b, (3 * b) / c, -2 / b, 2 * b * c, b / 2):
+        collect(lambda T: T.pow(a, e))
+    for t in (1 / (-a), b / (-a), (-1 * a) * b, -(a * b), (-a) / (-b)):
+        collect(lambda T: (T.sin(z3.simplify(t)), T.cos(z3.simplify(t)), T.sin(t), T.cos(t)))
     collect(lambda T: T.pow(T.pow(a, b), c))
     collect(lambda T: T.ln(T.pow(a, b)))
     collect(lambda T: (T.pow(sx.Q(2), a), T.pow(sx.Q(0.5), a + b), T.pow(sx.Q(sx.E_FLOAT), a), T.ln(sx.Q(2)), T.ln(sx.Q(sx.E_FLOAT)), T.ln(sx.Q(10)),
